@@ -56,7 +56,7 @@ def start_apps(src, n=2, procs=2, apps=1, lean=True, dist=('ALL_INSTANCES',), au
                 s['permitted'] = permitted
             # the identifiers rule of a program of a non-distributed application is replaced by the application's: a
             # restrictive one must change nothing
-            if src.pick_flag(f'program_rule_to_be_ignored{a}'):
+            if lean and src.pick_flag(f'program_rule_to_be_ignored{a}'):
                 adapter.set_rules(plist[0][0].rules, identifiers=[ids[n - 1]])
         targets.append((application, distribution, plist))
     core.finalize_rules()
